@@ -230,3 +230,27 @@ Proof.
   intros Hs. destruct (last_comp_chars dot (last_comp slash outfile)) as [I1 _].
   destruct (last_comp_chars slash outfile) as [_ I2]. apply I2, I1, Hs.
 Qed.
+
+(* ------------------------------------------------------------------ directives inside included files *)
+(* "the file the directive is in" is the included file itself: a path operand is resolved against
+   the directory of the included file (itself resolved against the including file), and the
+   default name is the included file's name -- never the including file's, never the cwd *)
+Lemma included_directive_outputs d file_path tape operand including :
+  let inner := resolve_relative_path operand including in
+  let e := emit_directive d file_path tape (included_name operand including) in
+  e_path e = match file_path with
+             | Some p => resolve_relative_path p inner
+             | None => default_path inner
+                         match d with MakeBin | MakeBk0010Rom => Some (s "bin") | MakeRaw => None
+                                    | _ => Some (s "wav") end
+             end.
+Proof. cbv zeta. unfold included_name. apply directive_outputs. Qed.
+
+Lemma included_relative d p tape operand including :
+  is_absolute_path operand = false -> is_absolute_path p = false ->
+  e_path (emit_directive d (Some p) tape (included_name operand including)) =
+  normpath (path_join (dirname (normpath (path_join (dirname including) operand))) p).
+Proof.
+  intros H1 H2. rewrite (included_directive_outputs d (Some p) tape operand including).
+  rewrite (resolve_relative p _ H2), (resolve_relative operand _ H1). reflexivity.
+Qed.
